@@ -128,7 +128,9 @@ impl GBody {
         Some(match h {
             "N" => GBody::Name(unhexs(t)?),
             "T" if t == "_" => GBody::Then(String::new()),
-            "T" if !t.is_empty() && t.chars().all(|c| "raexdkR".contains(c)) => GBody::Then(t.into()),
+            "T" if !t.is_empty() && t.chars().all(|c| "raexdkR".contains(c)) => {
+                GBody::Then(t.into())
+            }
             "E" if t.is_empty() => GBody::Term,
             "M" if t.is_empty() => GBody::Empty,
             "X" if t.is_empty() => GBody::Text,
@@ -165,8 +167,16 @@ impl GStmt {
     }
     fn parse(s: &str) -> Option<GStmt> {
         let (a, b) = s.split_once('|')?;
-        let attrs = if a == "." { vec![] } else { a.split(';').map(GAttr::parse).collect::<Option<Vec<_>>>()? };
-        let body = if b == "." { vec![] } else { b.split(';').map(GBody::parse).collect::<Option<Vec<_>>>()? };
+        let attrs = if a == "." {
+            vec![]
+        } else {
+            a.split(';').map(GAttr::parse).collect::<Option<Vec<_>>>()?
+        };
+        let body = if b == "." {
+            vec![]
+        } else {
+            b.split(';').map(GBody::parse).collect::<Option<Vec<_>>>()?
+        };
         Some(GStmt { attrs, body })
     }
     fn spec_token(&self) -> Option<String> {
@@ -179,12 +189,22 @@ impl GStmt {
         if rebound && self.declares_jcmd() {
             return None;
         }
-        let a = self.attrs.iter().map(|a| a.spec_token(rebound)).collect::<Option<Vec<_>>>()?;
-        let b = self.body.iter().map(|b| b.spec_token()).collect::<Option<Vec<_>>>()?;
+        let a = self
+            .attrs
+            .iter()
+            .map(|a| a.spec_token(rebound))
+            .collect::<Option<Vec<_>>>()?;
+        let b = self
+            .body
+            .iter()
+            .map(|b| b.spec_token())
+            .collect::<Option<Vec<_>>>()?;
         Some(format!("{}|{}", seplist(a, ";"), seplist(b, ";")))
     }
     fn uses_jcmd(&self) -> bool {
-        self.attrs.iter().any(|a| matches!(a, GAttr::Active(_) | GAttr::Comment(_)))
+        self.attrs
+            .iter()
+            .any(|a| matches!(a, GAttr::Active(_) | GAttr::Comment(_)))
     }
     fn declares_jcmd(&self) -> bool {
         self.attrs.iter().any(|a| matches!(a, GAttr::Ns))
@@ -193,7 +213,9 @@ impl GStmt {
         self.attrs.iter().any(|a| matches!(a, GAttr::Rebind))
     }
     fn uses_alt_prefix(&self) -> bool {
-        self.attrs.iter().any(|a| matches!(a, GAttr::AltActive(_) | GAttr::AltComment(_)))
+        self.attrs
+            .iter()
+            .any(|a| matches!(a, GAttr::AltActive(_) | GAttr::AltComment(_)))
     }
 }
 
@@ -215,18 +237,41 @@ impl Case {
         if st.len() != 8 || st[0] != b'e' || st[2] != b'q' || st[4] != b'k' || st[6] != b'w' {
             return None;
         }
-        let d = |b: u8| if b.is_ascii_digit() { Some(b - b'0') } else { None };
+        let d = |b: u8| {
+            if b.is_ascii_digit() {
+                Some(b - b'0')
+            } else {
+                None
+            }
+        };
         let shape: u8 = it.next()?.parse().ok()?;
         let ss = it.next()?;
-        let stmts = if ss == "." { vec![] } else { ss.split(',').map(GStmt::parse).collect::<Option<Vec<_>>>()? };
-        Some(Case { esc: d(st[1])?, quote: d(st[3])?, comments: d(st[5])?, indent: d(st[7])?, shape, stmts })
+        let stmts = if ss == "." {
+            vec![]
+        } else {
+            ss.split(',')
+                .map(GStmt::parse)
+                .collect::<Option<Vec<_>>>()?
+        };
+        Some(Case {
+            esc: d(st[1])?,
+            quote: d(st[3])?,
+            comments: d(st[5])?,
+            indent: d(st[7])?,
+            shape,
+            stmts,
+        })
     }
     /// the abstract description for `fetch spec`; `None` if the document is outside the grammar
     fn spec_config(&self) -> Option<String> {
         if self.shape != 0 {
             return None;
         }
-        let v = self.stmts.iter().map(|s| s.spec_token()).collect::<Option<Vec<_>>>()?;
+        let v = self
+            .stmts
+            .iter()
+            .map(|s| s.spec_token())
+            .collect::<Option<Vec<_>>>()?;
         Some(seplist(v, ","))
     }
 
@@ -274,19 +319,35 @@ impl Case {
                 GAttr::Comment(v) => out.push_str(&format!("jcmd:comment={}", self.esc_attr(v))),
                 GAttr::AltActive(v) => out.push_str(&format!("j:active={}", self.esc_attr(v))),
                 GAttr::AltComment(v) => out.push_str(&format!("j:comment={}", self.esc_attr(v))),
-                GAttr::Rebind => out.push_str(&format!("xmlns:jcmd={}", self.esc_attr("urn:example:not-junos"))),
-                GAttr::Other(0) => out.push_str(&format!("junos:changed-seconds={}", self.esc_attr("1700000000"))),
+                GAttr::Rebind => out.push_str(&format!(
+                    "xmlns:jcmd={}",
+                    self.esc_attr("urn:example:not-junos")
+                )),
+                GAttr::Other(0) => out.push_str(&format!(
+                    "junos:changed-seconds={}",
+                    self.esc_attr("1700000000")
+                )),
                 GAttr::Other(1) => out.push_str(&format!("inactive={}", self.esc_attr("inactive"))),
                 GAttr::Other(2) => out.push_str(&format!("xmlns:y={}", self.esc_attr("urn:y"))),
                 GAttr::Other(3) => out.push_str(&format!("x:active={}", self.esc_attr("false"))),
                 GAttr::Other(4) => out.push_str(&format!("active={}", self.esc_attr("false"))),
-                GAttr::Other(5) => out.push_str(&format!("comment={}", self.esc_attr("/* bgpfu-fltr: AS-UNPREFIXED */"))),
-                GAttr::Other(_) => out.push_str(&format!("x:comment={}", self.esc_attr("/* bgpfu-fltr: AS-FOREIGN */"))),
+                GAttr::Other(5) => out.push_str(&format!(
+                    "comment={}",
+                    self.esc_attr("/* bgpfu-fltr: AS-UNPREFIXED */")
+                )),
+                GAttr::Other(_) => out.push_str(&format!(
+                    "x:comment={}",
+                    self.esc_attr("/* bgpfu-fltr: AS-FOREIGN */")
+                )),
                 GAttr::Raw(v) => out.push_str(v),
             }
         }
         out.push('>');
-        let nl2 = if self.indent == 1 { "\n            " } else { "" };
+        let nl2 = if self.indent == 1 {
+            "\n            "
+        } else {
+            ""
+        };
         for b in &s.body {
             out.push_str(nl2);
             match b {
@@ -321,18 +382,39 @@ impl Case {
     }
 
     pub fn xml(&self) -> String {
-        let k = |s: &str| if self.comments == 1 { format!("<!-- {s} -->") } else { String::new() };
-        let decl_on_conf = self.stmts.iter().any(|s| s.uses_jcmd() && !s.declares_jcmd());
+        let k = |s: &str| {
+            if self.comments == 1 {
+                format!("<!-- {s} -->")
+            } else {
+                String::new()
+            }
+        };
+        let decl_on_conf = self
+            .stmts
+            .iter()
+            .any(|s| s.uses_jcmd() && !s.declares_jcmd());
         let conf_attrs = format!(
             " xmlns=\"http://xml.juniper.net/xnm/1.1/xnm\"{}{} junos:commit-seconds=\"1700000000\"",
-            if decl_on_conf { format!(" xmlns:jcmd=\"{JCMD}\"") } else { String::new() },
-            if self.stmts.iter().any(|s| s.uses_alt_prefix()) { format!(" xmlns:j=\"{JCMD}\"") } else { String::new() }
+            if decl_on_conf {
+                format!(" xmlns:jcmd=\"{JCMD}\"")
+            } else {
+                String::new()
+            },
+            if self.stmts.iter().any(|s| s.uses_alt_prefix()) {
+                format!(" xmlns:j=\"{JCMD}\"")
+            } else {
+                String::new()
+            }
         );
         let mut po = String::new();
         let n = self.stmts.len();
         let mut second = String::new();
         for (i, s) in self.stmts.iter().enumerate() {
-            let tgt = if self.shape == 2 && i >= (n + 1) / 2 { &mut second } else { &mut po };
+            let tgt = if self.shape == 2 && i >= (n + 1) / 2 {
+                &mut second
+            } else {
+                &mut po
+            };
             self.render_stmt(s, tgt);
             if self.comments == 1 && i % 2 == 0 {
                 tgt.push_str("<!-- between -->");
@@ -340,11 +422,20 @@ impl Case {
         }
         let inner = match self.shape {
             1 => k("only"),
-            2 => format!("<policy-options>{po}</policy-options><policy-options>{second}</policy-options>"),
-            3 => format!("<system><host-name>r1</host-name></system><policy-options>{po}</policy-options>"),
+            2 => format!(
+                "<policy-options>{po}</policy-options><policy-options>{second}</policy-options>"
+            ),
+            3 => format!(
+                "<system><host-name>r1</host-name></system><policy-options>{po}</policy-options>"
+            ),
             6 => format!("<policy-options>stray{po}</policy-options>"),
             7 => "<policy-options/>".to_string(),
-            _ => format!("{}<policy-options>{}{po}</policy-options>{}", k("c3"), k("c5"), k("c4")),
+            _ => format!(
+                "{}<policy-options>{}{po}</policy-options>{}",
+                k("c3"),
+                k("c5"),
+                k("c4")
+            ),
         };
         let conf = format!("<configuration{conf_attrs}>{inner}</configuration>");
         let data = match self.shape {
@@ -362,13 +453,17 @@ impl Case {
 // oracles (real libraries)
 
 fn parse_display(raw: &str) -> Option<String> {
-    rpsl::expr::MpFilterExpr::from_str(raw).ok().map(|e| e.to_string())
+    rpsl::expr::MpFilterExpr::from_str(raw)
+        .ok()
+        .map(|e| e.to_string())
 }
 
 /// `v.trim_matches(['/','*']).trim().strip_prefix("bgpfu-fltr:")` — only used to know which
 /// queries to answer; a wrong set shows up as `bad-op`
 fn annotation_raw(v: &str) -> Option<&str> {
-    v.trim_matches(['/', '*'].as_slice()).trim().strip_prefix("bgpfu-fltr:")
+    v.trim_matches(['/', '*'].as_slice())
+        .trim()
+        .strip_prefix("bgpfu-fltr:")
 }
 
 fn table(entries: &[(String, Option<String>)]) -> String {
@@ -401,7 +496,9 @@ fn oracles_from_events(evs: &str) -> (String, String) {
         }
         if f[0] == "S" && f[1] == format!("b{XNM_HEX}") && f[2] == hexs("name") {
             if let Some(sp) = f[4].strip_prefix('s').and_then(unhexs) {
-                let u = quick_xml::escape::unescape(&sp).ok().map(|c| c.into_owned());
+                let u = quick_xml::escape::unescape(&sp)
+                    .ok()
+                    .map(|c| c.into_owned());
                 uq.push((sp, u));
             }
         }
@@ -446,7 +543,14 @@ fn canon(r: &Result<Vec<(String, String)>, String>) -> String {
             // expression is its raw text, which does not parse
             let mut items: Vec<String> = v
                 .iter()
-                .map(|(n, e)| format!("{}={}{}", hexs(n), if parse_display(e).is_some() { "P" } else { "M" }, hexs(e)))
+                .map(|(n, e)| {
+                    format!(
+                        "{}={}{}",
+                        hexs(n),
+                        if parse_display(e).is_some() { "P" } else { "M" },
+                        hexs(e)
+                    )
+                })
                 .collect();
             items.sort();
             if items.is_empty() {
@@ -482,9 +586,26 @@ const EXPRS: [&str; 8] = [
     "<^AS65000 .*>",
     "(AS-A OR AS-B) AND NOT { 192.0.2.0/24 }",
 ];
-const MALFORMED: [&str; 6] = ["((", "AS-FOO AND", "", "AS-FOO & AS-BAR", "say \"hi\" <now>", "{ 10.0.0.0/33 }"];
-const NAMES: [&str; 10] =
-    ["fltr-foo", "a&b", "a<b>c", "q\"uote'd", "AS-SoS-in", "ünï-cødé", "a&amp;b", "x y", "p.q_r-1", "r>s"];
+const MALFORMED: [&str; 6] = [
+    "((",
+    "AS-FOO AND",
+    "",
+    "AS-FOO & AS-BAR",
+    "say \"hi\" <now>",
+    "{ 10.0.0.0/33 }",
+];
+const NAMES: [&str; 10] = [
+    "fltr-foo",
+    "a&b",
+    "a<b>c",
+    "q\"uote'd",
+    "AS-SoS-in",
+    "ünï-cødé",
+    "a&amp;b",
+    "x y",
+    "p.q_r-1",
+    "r>s",
+];
 
 fn decorate(rng: &mut Rng, body: &str) -> String {
     match rng.below(9) {
@@ -587,7 +708,14 @@ fn seqs<T: Clone>(alpha: &[T], max: usize) -> Vec<Vec<T>> {
 }
 
 fn plain_case(stmts: Vec<GStmt>) -> Case {
-    Case { esc: 0, quote: 0, comments: 0, indent: 0, shape: 0, stmts }
+    Case {
+        esc: 0,
+        quote: 0,
+        comments: 0,
+        indent: 0,
+        shape: 0,
+        stmts,
+    }
 }
 
 fn exhaustive(opts: &Opts) -> Vec<Case> {
@@ -595,20 +723,37 @@ fn exhaustive(opts: &Opts) -> Vec<Case> {
     let alpha = attr_alphabet();
     // every attribute sequence up to length 3 (4 when thorough) on a default-reject statement
     for attrs in seqs(&alpha, if opts.thorough() { 4 } else { 3 }) {
-        cases.push(plain_case(vec![GStmt { attrs, body: std_body("n0") }]));
+        cases.push(plain_case(vec![GStmt {
+            attrs,
+            body: std_body("n0"),
+        }]));
     }
     // every attribute sequence up to length 2 × every body shape, next to a well-formed managed statement
-    let witness = GStmt { attrs: vec![GAttr::Ns, GAttr::Comment(GOOD.into())], body: std_body("witness") };
+    let witness = GStmt {
+        attrs: vec![GAttr::Ns, GAttr::Comment(GOOD.into())],
+        body: std_body("witness"),
+    };
     for attrs in seqs(&alpha, 2) {
         for body in body_shapes("n0") {
-            cases.push(plain_case(vec![witness.clone(), GStmt { attrs: attrs.clone(), body }]));
+            cases.push(plain_case(vec![
+                witness.clone(),
+                GStmt {
+                    attrs: attrs.clone(),
+                    body,
+                },
+            ]));
         }
     }
     // the jcmd namespace under another prefix, the prefix `jcmd` bound to another namespace: every
     // combination of how the annotation and the inactive flag are spelt, next to the witness
     {
         let comments = [GAttr::Comment(GOOD.into()), GAttr::AltComment(GOOD.into())];
-        let actives = [None, Some(GAttr::Active("false".into())), Some(GAttr::AltActive("false".into())), Some(GAttr::AltActive("true".into()))];
+        let actives = [
+            None,
+            Some(GAttr::Active("false".into())),
+            Some(GAttr::AltActive("false".into())),
+            Some(GAttr::AltActive("true".into())),
+        ];
         for c in &comments {
             for a in &actives {
                 for rebind in [false, true] {
@@ -623,24 +768,77 @@ fn exhaustive(opts: &Opts) -> Vec<Case> {
                         if rebind {
                             attrs.insert(if flip { attrs.len() } else { 0 }, GAttr::Rebind);
                         }
-                        cases.push(plain_case(vec![witness.clone(), GStmt { attrs: attrs.clone(), body: std_body("n0") }]));
-                        cases.push(plain_case(vec![GStmt { attrs, body: std_body("n0") }]));
+                        cases.push(plain_case(vec![
+                            witness.clone(),
+                            GStmt {
+                                attrs: attrs.clone(),
+                                body: std_body("n0"),
+                            },
+                        ]));
+                        cases.push(plain_case(vec![GStmt {
+                            attrs,
+                            body: std_body("n0"),
+                        }]));
                     }
                 }
             }
         }
         // an un-annotated statement whose `jcmd:` prefix is not the jcmd namespace
-        cases.push(plain_case(vec![GStmt { attrs: vec![GAttr::Rebind, GAttr::Comment(PLAIN.into())], body: std_body("n0") }]));
+        cases.push(plain_case(vec![GStmt {
+            attrs: vec![GAttr::Rebind, GAttr::Comment(PLAIN.into())],
+            body: std_body("n0"),
+        }]));
     }
     // duplicate names among managed / unmanaged statements
-    let managed = |n: &str| GStmt { attrs: vec![GAttr::Ns, GAttr::Comment(GOOD.into())], body: std_body(n) };
+    let managed = |n: &str| GStmt {
+        attrs: vec![GAttr::Ns, GAttr::Comment(GOOD.into())],
+        body: std_body(n),
+    };
     let variants: Vec<(&str, GStmt)> = vec![
         ("managed", managed("dup")),
-        ("malformed", GStmt { attrs: vec![GAttr::Ns, GAttr::Comment(BAD.into())], body: std_body("dup") }),
-        ("unannotated", GStmt { attrs: vec![], body: std_body("dup") }),
-        ("inactive", GStmt { attrs: vec![GAttr::Ns, GAttr::Active("false".into()), GAttr::Comment(GOOD.into())], body: std_body("dup") }),
-        ("noreject", GStmt { attrs: vec![GAttr::Ns, GAttr::Comment(GOOD.into())], body: vec![GBody::Name("dup".into())] }),
-        ("other", GStmt { attrs: vec![GAttr::Ns, GAttr::Comment(GOOD.into())], body: vec![GBody::Name("dup".into()), GBody::Term, GBody::Then("r".into())] }),
+        (
+            "malformed",
+            GStmt {
+                attrs: vec![GAttr::Ns, GAttr::Comment(BAD.into())],
+                body: std_body("dup"),
+            },
+        ),
+        (
+            "unannotated",
+            GStmt {
+                attrs: vec![],
+                body: std_body("dup"),
+            },
+        ),
+        (
+            "inactive",
+            GStmt {
+                attrs: vec![
+                    GAttr::Ns,
+                    GAttr::Active("false".into()),
+                    GAttr::Comment(GOOD.into()),
+                ],
+                body: std_body("dup"),
+            },
+        ),
+        (
+            "noreject",
+            GStmt {
+                attrs: vec![GAttr::Ns, GAttr::Comment(GOOD.into())],
+                body: vec![GBody::Name("dup".into())],
+            },
+        ),
+        (
+            "other",
+            GStmt {
+                attrs: vec![GAttr::Ns, GAttr::Comment(GOOD.into())],
+                body: vec![
+                    GBody::Name("dup".into()),
+                    GBody::Term,
+                    GBody::Then("r".into()),
+                ],
+            },
+        ),
     ];
     for (_, a) in &variants {
         for (_, b) in &variants {
@@ -649,7 +847,12 @@ fn exhaustive(opts: &Opts) -> Vec<Case> {
         }
     }
     // escaped names: "a&b" and "a&amp;b" are different names; "a&b" twice is a duplicate
-    for (x, y) in [("a&b", "a&amp;b"), ("a&b", "a&b"), ("a<b", "a&lt;b"), (" pad", "pad")] {
+    for (x, y) in [
+        ("a&b", "a&amp;b"),
+        ("a&b", "a&b"),
+        ("a<b", "a&lt;b"),
+        (" pad", "pad"),
+    ] {
         for esc in 0..2 {
             let mut c = plain_case(vec![managed(x), managed(y)]);
             c.esc = esc;
@@ -659,7 +862,14 @@ fn exhaustive(opts: &Opts) -> Vec<Case> {
     // document shapes, styles
     for shape in 0..8u8 {
         for k in 0..2u8 {
-            let mut c = plain_case(vec![managed("s1"), GStmt { attrs: vec![], body: std_body("s2") }, managed("s3")]);
+            let mut c = plain_case(vec![
+                managed("s1"),
+                GStmt {
+                    attrs: vec![],
+                    body: std_body("s2"),
+                },
+                managed("s3"),
+            ]);
             c.shape = shape;
             c.comments = k;
             c.indent = k;
@@ -674,7 +884,10 @@ fn exhaustive(opts: &Opts) -> Vec<Case> {
         for _ in 0..12 {
             let v = annotation(&mut r, e);
             for (esc, quote) in [(0, 0), (1, 1)] {
-                let mut c = plain_case(vec![GStmt { attrs: vec![GAttr::Ns, GAttr::Comment(v.clone())], body: std_body("n0") }]);
+                let mut c = plain_case(vec![GStmt {
+                    attrs: vec![GAttr::Ns, GAttr::Comment(v.clone())],
+                    body: std_body("n0"),
+                }]);
                 c.esc = esc;
                 c.quote = quote;
                 cases.push(c);
@@ -699,11 +912,24 @@ fn exhaustive(opts: &Opts) -> Vec<Case> {
     ];
     for raw in raws {
         for pos in 0..3 {
-            let mut attrs = vec![GAttr::Ns, GAttr::Active("false".into()), GAttr::Comment(GOOD.into())];
+            let mut attrs = vec![
+                GAttr::Ns,
+                GAttr::Active("false".into()),
+                GAttr::Comment(GOOD.into()),
+            ];
             attrs.insert(pos + 1, GAttr::Raw(raw.into()));
-            cases.push(plain_case(vec![witness.clone(), GStmt { attrs, body: std_body("n0") }]));
+            cases.push(plain_case(vec![
+                witness.clone(),
+                GStmt {
+                    attrs,
+                    body: std_body("n0"),
+                },
+            ]));
         }
-        cases.push(plain_case(vec![GStmt { attrs: vec![GAttr::Ns, GAttr::Raw(raw.into())], body: std_body("n0") }]));
+        cases.push(plain_case(vec![GStmt {
+            attrs: vec![GAttr::Ns, GAttr::Raw(raw.into())],
+            body: std_body("n0"),
+        }]));
     }
     cases
 }
@@ -720,11 +946,23 @@ fn random_case(rng: &mut Rng) -> Case {
             attrs.push(GAttr::Ns);
         }
         if annotated {
-            let e = if rng.chance(1, 5) { *rng.pick(&MALFORMED) } else { *rng.pick(&EXPRS) };
+            let e = if rng.chance(1, 5) {
+                *rng.pick(&MALFORMED)
+            } else {
+                *rng.pick(&EXPRS)
+            };
             attrs.push(GAttr::Comment(annotation(rng, e)));
             if rng.chance(1, 6) {
-                let e2 = if rng.chance(1, 3) { *rng.pick(&MALFORMED) } else { *rng.pick(&EXPRS) };
-                attrs.push(GAttr::Comment(if rng.chance(1, 2) { annotation(rng, e2) } else { PLAIN.into() }));
+                let e2 = if rng.chance(1, 3) {
+                    *rng.pick(&MALFORMED)
+                } else {
+                    *rng.pick(&EXPRS)
+                };
+                attrs.push(GAttr::Comment(if rng.chance(1, 2) {
+                    annotation(rng, e2)
+                } else {
+                    PLAIN.into()
+                }));
             }
         } else if rng.chance(1, 3) {
             attrs.push(GAttr::Comment(PLAIN.into()));
@@ -732,7 +970,11 @@ fn random_case(rng: &mut Rng) -> Case {
         if rng.chance(1, 4) {
             // Junos emits xmlns:jcmd once per jcmd attribute
             attrs.push(GAttr::Ns);
-            attrs.push(GAttr::Active(if rng.chance(3, 4) { "false".into() } else { rng.pick(&["true", "FALSE", " false", ""]).to_string() }));
+            attrs.push(GAttr::Active(if rng.chance(3, 4) {
+                "false".into()
+            } else {
+                rng.pick(&["true", "FALSE", " false", ""]).to_string()
+            }));
         }
         for _ in 0..rng.below(3) {
             attrs.push(GAttr::Other(rng.below(7) as u8));
@@ -764,7 +1006,11 @@ fn random_case(rng: &mut Rng) -> Case {
         }
         // body
         let base = *rng.pick(&NAMES);
-        let name = if rng.chance(1, 12) { "dup".to_string() } else { format!("{base}-{i}") };
+        let name = if rng.chance(1, 12) {
+            "dup".to_string()
+        } else {
+            format!("{base}-{i}")
+        };
         let shapes = body_shapes(&name);
         let grammar_shapes = 23;
         let mut body = if rng.chance(3, 5) {
@@ -784,7 +1030,11 @@ fn random_case(rng: &mut Rng) -> Case {
         quote: rng.below(2) as u8,
         comments: rng.below(2) as u8,
         indent: rng.below(2) as u8,
-        shape: if rng.chance(1, 25) { rng.below(8) as u8 } else { 0 },
+        shape: if rng.chance(1, 25) {
+            rng.below(8) as u8
+        } else {
+            0
+        },
         stmts,
     }
 }
@@ -798,7 +1048,12 @@ fn classify(c: &Case) -> &'static str {
 }
 
 pub fn main(opts: &Opts) {
-    let cfg = opts.extra.iter().find_map(|e| e.strip_prefix("cfg=")).unwrap_or("pinned").to_string();
+    let cfg = opts
+        .extra
+        .iter()
+        .find_map(|e| e.strip_prefix("cfg="))
+        .unwrap_or("pinned")
+        .to_string();
     let mut sink = Sink::new();
     let mut cases: Vec<Case> = vec![];
     if let Some(p) = &opts.replay {
@@ -834,11 +1089,27 @@ pub fn main(opts: &Opts) {
         progress_idle();
         let evs = tokenize(&xml);
         let (po, uo) = oracles_from_events(&evs);
-        sink.corr(&d, format!("fetch cands {cfg} {po} {uo} {evs}"), real.clone());
-        sink.count(&format!("result.{}", if real == "err" { "err" } else if real == "ok:." { "ok-none" } else { "ok-some" }));
+        sink.corr(
+            &d,
+            format!("fetch cands {cfg} {po} {uo} {evs}"),
+            real.clone(),
+        );
+        sink.count(&format!(
+            "result.{}",
+            if real == "err" {
+                "err"
+            } else if real == "ok:." {
+                "ok-none"
+            } else {
+                "ok-some"
+            }
+        ));
         sink.count(&format!("class.{}", classify(c)));
         if let Some(sc) = c.spec_config() {
-            sink.spec(&d, format!("fetch spec {sc} {} {real}", oracle_from_case(c)));
+            sink.spec(
+                &d,
+                format!("fetch spec {sc} {} {real}", oracle_from_case(c)),
+            );
         }
         if real.contains("=M") {
             sink.count("result.with-malformed");
